@@ -1086,6 +1086,8 @@ class ExcelCompiler:
                     failure = failure or exc
 
         if failure is not None:
+            # (the ranges are calculated when they are first needed)
+            self.range_todos = []
             raise failure
 
         # calc the values for ranges
